@@ -71,4 +71,17 @@ MUTANTS = [
     {"name": "C01-select-prefix-match", "property": "C01,C15", "edits": [("server/upstream/manager.go", "\tlb, ok := m.localUpstreams[endpointID]\n\tif ok {\n\t\tm.metrics.UpstreamRequestsTotal.Inc()", "\tlb, ok := m.localUpstreams[endpointID]\n\tif !ok {\n\t\tfor id, cand := range m.localUpstreams {\n\t\t\tif strings.HasPrefix(id, endpointID) {\n\t\t\t\tlb, ok = cand, true\n\t\t\t}\n\t\t}\n\t}\n\tif ok {\n\t\tm.metrics.UpstreamRequestsTotal.Inc()"), ("server/upstream/manager.go", "import (\n\t\"crypto/tls\"", "import (\n\t\"crypto/tls\"\n\t\"strings\"")]},
     {"name": "C01-node-upstream-dials-admin", "property": "C01", "edits": [("server/upstream/upstream.go", "\treturn net.Dial(\"tcp\", u.node.ProxyAddr)", "\treturn net.Dial(\"tcp\", u.node.AdminAddr)")]},
     {"name": "C01-tcp-route-ignores-remote", "property": "C01", "edits": [("server/proxy/tcpproxy.go", "\tu, ok := p.upstreams.Select(endpointID, !forwarded)", "\tu, ok := p.upstreams.Select(endpointID, !forwarded && false)")]},
+    # ---- C06
+    {"name": "C06-forward-header-not-set", "property": "C06", "edits": [("server/proxy/httpproxy.go", "\tr.Header.Set(\"x-piko-forward\", \"true\")\n", "")]},
+    {"name": "C06-http-always-allow-forward", "property": "C06", "edits": [("server/proxy/httpproxy.go", "\tupstream, ok := p.upstreams.Select(endpointID, !forwarded)", "\tupstream, ok := p.upstreams.Select(endpointID, !forwarded || true)")]},
+    {"name": "C06-tcp-always-allow-forward", "property": "C06", "edits": [("server/proxy/tcpproxy.go", "\tu, ok := p.upstreams.Select(endpointID, !forwarded)", "\tu, ok := p.upstreams.Select(endpointID, !forwarded || true)")]},
+    {"name": "C06-remote-before-local", "property": "C06,C15", "edits": [("server/upstream/manager.go", "\tlb, ok := m.localUpstreams[endpointID]\n\tif ok {\n\t\tm.metrics.UpstreamRequestsTotal.Inc()\n\t\treturn lb.Next(), true\n\t}", "\tif allowRemote {\n\t\tif node, ok := m.cluster.LookupEndpoint(endpointID); ok {\n\t\t\treturn NewNodeUpstream(endpointID, node, m.tlsConfig), true\n\t\t}\n\t}\n\tlb, ok := m.localUpstreams[endpointID]\n\tif ok {\n\t\tm.metrics.UpstreamRequestsTotal.Inc()\n\t\treturn lb.Next(), true\n\t}")]},
+    {"name": "C06-forward-header-only-on-remote-dial", "property": "C06", "edits": [("server/proxy/httpproxy.go", "\tr.Header.Set(\"x-piko-forward\", \"true\")\n", "\tif !upstream.Forward() || r.Header.Get(\"upgrade\") != \"\" {\n\t\tr.Header.Set(\"x-piko-forward\", \"true\")\n\t}\n")]},
+    # ---- C18
+    {"name": "C18-revert-D4", "property": "C18", "edits": [("client/listener.go", "\t\t\tif l.closeCtx.Err() != nil {\n\t\t\t\treturn nil, ErrClosed\n\t\t\t}", "\t\t\treturn nil, ErrClosed")]},
+    {"name": "C18-shutdown-no-leave", "property": "C18", "edits": [("server/server.go", "if err := s.gossiper.Leave(ctx); err != nil {", "if err := error(nil); err != nil {")]},
+    {"name": "C18-leave-notifies-nobody", "property": "C18", "edits": [("pkg/gossip/gossip.go", "\t\tif node.Left || node.Unreachable {\n\t\t\t// Ignore left/unreachable nodes.\n\t\t\tcontinue\n\t\t}", "\t\tif node.ID != \"\" {\n\t\t\tcontinue\n\t\t}")]},
+    {"name": "C18-upstream-shutdown-not-cancel", "property": "C18,C16", "edits": [("server/upstream/server.go", "\t// Close the context to close upstream connections.\n\ts.cancel()\n", "")]},
+    {"name": "C18-leave-local-no-marker", "property": "C18,C11", "edits": [("pkg/gossip/state.go", "\tstate.Version++\n\tstate.Entries[leftKey] = Entry{\n\t\tKey:      leftKey,\n\t\tVersion:  state.Version,\n\t\tInternal: true,\n\t}", "")]},
+    {"name": "C18-reconnect-backoff-gives-up", "property": "C18", "edits": [("client/upstream.go", "\t\tvar retryableError *websocket.RetryableError\n\t\tif !errors.As(err, &retryableError) {", "\t\tvar retryableError *websocket.RetryableError\n\t\tif true || !errors.As(err, &retryableError) {")]},
 ]
